@@ -535,7 +535,9 @@ def main():
         print('govc: no obligations generated for %s' % pid)
         exit_code = 2
     wall = time.time() - t0
-    propmap.write_evidence(pid, a.tier, seed, prog, spec, outs, allres, discharged, nobl, nviol, known_hit, wall, extra, vac)
+    if os.path.realpath(a.repo) == os.path.realpath(IR.REPO) and not os.environ.get('GOVC_ONLY'):
+        # evidence describes runs on /repo's working tree only (scratch copies used by the seed tools leave it alone)
+        propmap.write_evidence(pid, a.tier, seed, prog, spec, outs, allres, discharged, nobl, nviol, known_hit, wall, extra, vac)
     print('%s: %d obligations, %d discharged, %d functions under contract, %d violations, %d known findings, %.1fs' % (
         pid, nobl, discharged, len(set(o['fn'] for o in outs)), nviol, len(known_hit), wall))
     sys.exit(exit_code)
